@@ -106,6 +106,7 @@ type timer struct {
 	period time.Duration
 	active bool
 	name   string
+	owner  string // name of the goroutine which armed it
 }
 
 // Sched is one execution.
@@ -861,6 +862,9 @@ func NewTimer(d time.Duration, period time.Duration, c chan time.Time, fn func()
 	}
 	s.tseq++
 	t := &timer{when: s.now.Add(d), seq: s.tseq, c: c, fn: fn, period: period, active: true, name: name}
+	if s.cur != nil {
+		t.owner = s.cur.name
+	}
 	s.timers = append(s.timers, t)
 	return &TimerHandle{t}
 }
@@ -979,6 +983,50 @@ func FireNext(horizon time.Duration) bool {
 	return true
 }
 
+// TimerInfo describes one armed timer.
+type TimerInfo struct {
+	Name, Owner string
+	Periodic    bool
+}
+
+// Timers lists the armed timers in creation order.
+func Timers() []TimerInfo {
+	s := cur()
+	if s == nil {
+		return nil
+	}
+	ts := append([]*timer(nil), s.timers...)
+	sort.Slice(ts, func(i, j int) bool { return ts[i].seq < ts[j].seq })
+	var out []TimerInfo
+	for _, t := range ts {
+		if t.active {
+			out = append(out, TimerInfo{t.name, t.owner, t.period > 0})
+		}
+	}
+	return out
+}
+
+// FireTimer fires the oldest armed timer accepted by match, whatever its deadline (the clock
+// jumps forward to the deadline if it is later; timers with earlier deadlines stay armed: to the
+// code under test this is an arbitrarily late timer). No quiescence. Reports whether one fired.
+func FireTimer(match func(TimerInfo) bool) bool {
+	s := cur()
+	if s == nil {
+		return false
+	}
+	var best *timer
+	for _, t := range s.timers {
+		if t.active && match(TimerInfo{t.name, t.owner, t.period > 0}) && (best == nil || t.seq < best.seq) {
+			best = t
+		}
+	}
+	if best == nil {
+		return false
+	}
+	s.fire(best)
+	return true
+}
+
 // ArmedTimers lists armed timers (name and time to deadline), sorted by deadline.
 func ArmedTimers() []string {
 	s := cur()
@@ -1005,4 +1053,27 @@ func ArmedTimers() []string {
 func YieldOnAtomicLoads() bool {
 	s := cur()
 	return s != nil && s.cfg.YieldAtomics
+}
+
+// ---------------------------------------------------------------------------------------------
+// exposed locals (inserted by verif-instr: see `expose` there)
+
+type exposeKey struct {
+	owner any
+	name  string
+}
+
+// Expose registers a pointer to a function-local variable of a long-running goroutine.
+func Expose(owner any, name string, ptr any) {
+	if s := cur(); s != nil {
+		s.values["expose:"+fmt.Sprintf("%p/%s", owner, name)] = ptr
+	}
+}
+
+// Exposed returns the pointer registered last for (owner, name), nil if none.
+func Exposed(owner any, name string) any {
+	if s := cur(); s != nil {
+		return s.values["expose:"+fmt.Sprintf("%p/%s", owner, name)]
+	}
+	return nil
 }
